@@ -1444,7 +1444,10 @@ class ComponentSpecification(experiment.model.interface.InternalRepresentationAt
                 original_reference = None
                 if d.absoluteReference in all_references:
                     original_reference = d.absoluteReference
-                elif d.relativeReference in all_references:
+                elif d.stageIndex in (None, self.identification.stageIndex) \
+                        and d.relativeReference in all_references:
+                    # VV: only a producer of this very stage may be spelled without its stage; the same text is the
+                    # reference to a namesake in this stage when the producer lives in another stage
                     original_reference = d.relativeReference
 
                 if original_reference is None:
